@@ -29,6 +29,7 @@ func checkC20(c *Ctx) {
 	c.checkIdSpellings()
 	c.checkCtrlParamsDynamicType()
 	c.checkResultNotReallocated()
+	c.checkScalarCodecPairs()
 	c.checkActingUserNotSession("C20.4d-p2p-name-of-acting-user", "p2p-name")
 }
 
